@@ -3,7 +3,7 @@ from __future__ import annotations
 
 import ast
 
-from sa.astx import call_attr, call_name, dotted, src, statements, walk_local
+from sa.astx import call_attr, call_name, dotted, src, statements
 from sa.selftest import Mutant, Silent
 from sa.source import class_assigns, methods
 from sa.props._lib_h import (assigned_pairs, call_nodes, calls_at, const_is, edge_path, is_attr, need, reaching_defs, stmts,
